@@ -6,83 +6,77 @@ import (
 	"go/token"
 	"strconv"
 	"strings"
+
+	"verif/harness/internal/ledgersrc"
 )
 
 // Crash recovery of the ledger store (C01): the replay loop of recoverStore and the order of the durable steps of a
-// block commit, read from core/store/ledgerstore/ledger_store.go.
+// block commit, read from core/store/ledgerstore.
 //
-//	for i := stateHeight + LO; i < blockHeight + HI; i++ { ... GetBlockHash(i + ARG) ... }
+//	for i := <state height> + LO; i < <block height> + HI; i++ { ... blockStore.GetBlockHash(i + ARG) ... }
 //
-// becomes loopLo / loopHi / blockArg (`<=` is translated to `<` with HI+1). The generator refuses every other shape.
+// becomes loopLo / loopHi / blockArg (`<=` is translated to `<` with HI+1). Sites are located by ROLE (package
+// ledgersrc): the loop body and the commit sequence are followed into unexported same-receiver helpers, the loop
+// variable and the two heights may have any name (the state height is "the height returned by stateStore.GetCurrentBlock",
+// the block height "GetCurrentBlockHeight() / the height returned by blockStore.GetCurrentBlock"), hoisted or named
+// sub-expressions are inlined first. What is not understood is an error naming the site, never a default.
 func init() { Register("Recover", genRecover) }
 
 const recoverFile = "core/store/ledgerstore/ledger_store.go"
 
-// affine parses `base`, `base + c`, `c + base` (c a non-negative integer literal) and returns c.
-func affine(fset *token.FileSet, e ast.Expr, base string) (int, error) {
+func recoverStripParens(e ast.Expr) ast.Expr {
 	for {
-		p, ok := e.(*ast.ParenExpr)
-		if !ok {
-			break
+		switch x := e.(type) {
+		case *ast.ParenExpr:
+			e = x.X
+			continue
+		case *ast.CallExpr: // integer conversions uint32(x), uint64(x), int(x)
+			if id, ok := x.Fun.(*ast.Ident); ok && len(x.Args) == 1 {
+				switch id.Name {
+				case "uint32", "uint64", "int", "int64", "uint":
+					e = x.Args[0]
+					continue
+				}
+			}
 		}
-		e = p.X
+		return e
 	}
-	if id, ok := e.(*ast.Ident); ok && id.Name == base {
+}
+
+// recoverAffine parses `base`, `base + c`, `c + base` (c a non-negative integer literal) and returns c.
+func recoverAffine(fset *token.FileSet, e ast.Expr, isBase func(ast.Expr) bool, what string) (int, error) {
+	e = recoverStripParens(e)
+	if isBase(e) {
 		return 0, nil
 	}
 	if be, ok := e.(*ast.BinaryExpr); ok && be.Op == token.ADD {
 		lit := func(x ast.Expr) (int, bool) {
-			if bl, ok := x.(*ast.BasicLit); ok && bl.Kind == token.INT {
+			if bl, ok := recoverStripParens(x).(*ast.BasicLit); ok && bl.Kind == token.INT {
 				v, err := strconv.Atoi(bl.Value)
 				return v, err == nil
 			}
 			return 0, false
 		}
-		isBase := func(x ast.Expr) bool { id, ok := x.(*ast.Ident); return ok && id.Name == base }
-		if c, ok := lit(be.Y); ok && isBase(be.X) {
-			return c, nil
+		if c, ok := lit(be.Y); ok {
+			if d, err := recoverAffine(fset, be.X, isBase, what); err == nil {
+				return c + d, nil
+			}
 		}
-		if c, ok := lit(be.X); ok && isBase(be.Y) {
-			return c, nil
-		}
-	}
-	return 0, fmt.Errorf("expression `%s` is not of the form `%s` or `%s + <literal>`", exprString(fset, e), base, base)
-}
-
-// callsIn lists the printed callee expressions of every call inside n, in source order.
-func callsIn(fset *token.FileSet, n ast.Node) []string {
-	var out []string
-	ast.Inspect(n, func(x ast.Node) bool {
-		if ce, ok := x.(*ast.CallExpr); ok {
-			out = append(out, exprString(fset, ce.Fun))
-		}
-		return true
-	})
-	return out
-}
-
-// orderOf returns the indexes (into names) of the calls of `names` in the order they occur in calls; every name must
-// occur exactly once.
-func orderOf(calls []string, names []string) ([]int, error) {
-	var order []int
-	for _, c := range calls {
-		for i, n := range names {
-			if c == n {
-				order = append(order, i)
+		if c, ok := lit(be.X); ok {
+			if d, err := recoverAffine(fset, be.Y, isBase, what); err == nil {
+				return c + d, nil
 			}
 		}
 	}
-	if len(order) != len(names) {
-		return nil, fmt.Errorf("expected exactly one call of each of %v, found %d such calls", names, len(order))
+	return 0, fmt.Errorf("expression `%s` is not of the form `%s` or `%s + <literal>`", flat(fset, e), what, what)
+}
+
+func natList(xs []int) string {
+	var s []string
+	for _, x := range xs {
+		s = append(s, strconv.Itoa(x))
 	}
-	seen := map[int]bool{}
-	for _, i := range order {
-		if seen[i] {
-			return nil, fmt.Errorf("%s is called more than once", names[i])
-		}
-		seen[i] = true
-	}
-	return order, nil
+	return "[" + strings.Join(s, ", ") + "]"
 }
 
 func indexOf(xs []string, s string) int {
@@ -94,105 +88,156 @@ func indexOf(xs []string, s string) int {
 	return -1
 }
 
-func natList(xs []int) string {
-	var s []string
+func countOf(xs []string, s string) int {
+	n := 0
 	for _, x := range xs {
-		s = append(s, strconv.Itoa(x))
+		if x == s {
+			n++
+		}
 	}
-	return "[" + strings.Join(s, ", ") + "]"
+	return n
 }
 
+var recoverStoreNo = map[string]int{"b": 0, "e": 1, "s": 2}
+
 func genRecover(repo string) (string, error) {
-	fset, f, err := parseFile(repo, recoverFile)
+	p, err := ledgersrc.Load(repo)
 	if err != nil {
 		return "", err
 	}
-	site := recoverFile + ":recoverStore"
-	fn := findFunc(f, "recoverStore")
+	fset := p.Fset
+	site := ledgersrc.Dir + ":recoverStore"
+	fn := p.Funcs["LedgerStoreImp.recoverStore"]
 	if fn == nil {
-		return "", fmt.Errorf("%s: func not found", site)
+		return "", fmt.Errorf("%s: method of LedgerStoreImp not found", site)
 	}
-	// the two heights the loop runs between
-	bh := assignsTo(fn, "blockHeight")
-	if len(bh) != 1 || exprString(fset, bh[0]) != "this.GetCurrentBlockHeight()" {
-		return "", fmt.Errorf("%s: expected exactly `blockHeight := this.GetCurrentBlockHeight()`", site)
+	recv := ledgersrc.RecvName(fn)
+	defsOf := map[*ast.FuncDecl]*defTable{}
+	inline := func(fd *ast.FuncDecl, e ast.Expr) ast.Expr {
+		d, ok := defsOf[fd]
+		if !ok {
+			d = singleDefs(fd)
+			defsOf[fd] = d
+		}
+		return inlineLocals(e, d)
 	}
-	stOK := 0
+	// the locals that hold the two heights: second value of <recv>.stateStore.GetCurrentBlock() / <recv>.blockStore.GetCurrentBlock()
+	heightVar := map[string]string{} // local name -> "state" | "block"
+	assigned := map[string]int{}
 	ast.Inspect(fn.Body, func(n ast.Node) bool {
-		if as, ok := n.(*ast.AssignStmt); ok && len(as.Lhs) == 3 && len(as.Rhs) == 1 {
-			if id, ok := as.Lhs[1].(*ast.Ident); ok && id.Name == "stateHeight" && exprString(fset, as.Rhs[0]) == "this.stateStore.GetCurrentBlock()" {
-				stOK++
+		as, ok := n.(*ast.AssignStmt)
+		if !ok {
+			return true
+		}
+		for _, l := range as.Lhs {
+			if id, ok := l.(*ast.Ident); ok {
+				assigned[id.Name]++
+			}
+		}
+		if len(as.Lhs) == 3 && len(as.Rhs) == 1 {
+			if id, ok := as.Lhs[1].(*ast.Ident); ok && id.Name != "_" {
+				switch flat(fset, as.Rhs[0]) {
+				case recv + ".stateStore.GetCurrentBlock()":
+					heightVar[id.Name] = "state"
+				case recv + ".blockStore.GetCurrentBlock()":
+					heightVar[id.Name] = "block"
+				}
 			}
 		}
 		return true
 	})
-	if stOK != 1 {
-		return "", fmt.Errorf("%s: expected exactly `_, stateHeight, err := this.stateStore.GetCurrentBlock()`", site)
-	}
-	// exactly one loop, directly in the function body
-	var loop *ast.ForStmt
-	nloops := 0
-	ast.Inspect(fn.Body, func(n ast.Node) bool {
-		switch n.(type) {
-		case *ast.ForStmt, *ast.RangeStmt:
-			nloops++
-		}
-		return true
-	})
-	for _, s := range fn.Body.List {
-		if fs, ok := s.(*ast.ForStmt); ok {
-			loop = fs
+	isHeight := func(kind string) func(ast.Expr) bool {
+		return func(e ast.Expr) bool {
+			switch x := e.(type) {
+			case *ast.Ident:
+				return heightVar[x.Name] == kind && assigned[x.Name] == 1
+			case *ast.CallExpr:
+				return kind == "block" && flat(fset, x) == recv+".GetCurrentBlockHeight()"
+			}
+			return false
 		}
 	}
-	if loop == nil || nloops != 1 {
-		return "", fmt.Errorf("%s: expected exactly one `for` statement at the top level of the function (found %d loops)", site, nloops)
-	}
-	hdr := func() string {
-		return fmt.Sprintf("for %s; %s; %s", exprString(fset, loop.Init), exprString(fset, loop.Cond), exprString(fset, loop.Post))
+	loop := ledgersrc.FirstLoop(fn)
+	if loop == nil {
+		return "", fmt.Errorf("%s: expected exactly one `for` statement, at the top level of the function", site)
 	}
 	if loop.Init == nil || loop.Cond == nil || loop.Post == nil {
-		return "", fmt.Errorf("%s: loop header incomplete", site)
+		return "", fmt.Errorf("%s: loop header incomplete (only three-clause loops are understood)", site)
 	}
+	hdr := fmt.Sprintf("for %s; %s; %s", exprString(fset, loop.Init), exprString(fset, loop.Cond), exprString(fset, loop.Post))
 	init, ok := loop.Init.(*ast.AssignStmt)
 	if !ok || init.Tok != token.DEFINE || len(init.Lhs) != 1 || len(init.Rhs) != 1 {
-		return "", fmt.Errorf("%s: loop init `%s` is not `i := <expr>`", site, exprString(fset, loop.Init))
+		return "", fmt.Errorf("%s: loop init `%s` is not `<var> := <expr>`", site, exprString(fset, loop.Init))
 	}
 	ivar, ok := init.Lhs[0].(*ast.Ident)
 	if !ok {
 		return "", fmt.Errorf("%s: loop variable not an identifier", site)
 	}
-	lo, err := affine(fset, init.Rhs[0], "stateHeight")
+	isVar := func(e ast.Expr) bool { id, ok := e.(*ast.Ident); return ok && id.Name == ivar.Name }
+	lo, err := recoverAffine(fset, inline(fn, init.Rhs[0]), isHeight("state"), "<state-store height>")
 	if err != nil {
 		return "", fmt.Errorf("%s: loop init: %v", site, err)
 	}
 	cond, ok := loop.Cond.(*ast.BinaryExpr)
-	if !ok || (cond.Op != token.LSS && cond.Op != token.LEQ) || exprString(fset, cond.X) != ivar.Name {
-		return "", fmt.Errorf("%s: loop condition `%s` is not `%s < <expr>` / `%s <= <expr>`", site, exprString(fset, loop.Cond), ivar.Name, ivar.Name)
+	if !ok {
+		return "", fmt.Errorf("%s: loop condition `%s` is not a comparison", site, exprString(fset, loop.Cond))
 	}
-	hi, err := affine(fset, cond.Y, "blockHeight")
+	var bound ast.Expr
+	inclusive := false
+	switch {
+	case isVar(recoverStripParens(cond.X)) && (cond.Op == token.LSS || cond.Op == token.LEQ):
+		bound, inclusive = cond.Y, cond.Op == token.LEQ
+	case isVar(recoverStripParens(cond.Y)) && (cond.Op == token.GTR || cond.Op == token.GEQ):
+		bound, inclusive = cond.X, cond.Op == token.GEQ
+	default:
+		return "", fmt.Errorf("%s: loop condition `%s` is not `%s < / <= <expr>` (or mirrored)", site, exprString(fset, loop.Cond), ivar.Name)
+	}
+	hi, err := recoverAffine(fset, inline(fn, bound), isHeight("block"), "<block-store height>")
 	if err != nil {
 		return "", fmt.Errorf("%s: loop condition: %v", site, err)
 	}
-	if cond.Op == token.LEQ {
+	if inclusive {
 		hi++
 	}
-	post, ok := loop.Post.(*ast.IncDecStmt)
-	if !ok || post.Tok != token.INC || exprString(fset, post.X) != ivar.Name {
-		return "", fmt.Errorf("%s: loop post statement `%s` is not `%s++`", site, exprString(fset, loop.Post), ivar.Name)
+	postOK := false
+	switch s := loop.Post.(type) {
+	case *ast.IncDecStmt:
+		postOK = s.Tok == token.INC && isVar(s.X)
+	case *ast.AssignStmt:
+		if len(s.Lhs) == 1 && len(s.Rhs) == 1 && isVar(s.Lhs[0]) {
+			one := func(e ast.Expr) bool { bl, ok := e.(*ast.BasicLit); return ok && bl.Value == "1" }
+			if s.Tok == token.ADD_ASSIGN && one(s.Rhs[0]) {
+				postOK = true
+			}
+			if be, ok := s.Rhs[0].(*ast.BinaryExpr); ok && s.Tok == token.ASSIGN && be.Op == token.ADD &&
+				((isVar(be.X) && one(be.Y)) || (isVar(be.Y) && one(be.X))) {
+				postOK = true
+			}
+		}
 	}
-	// the loop variable, stateHeight and blockHeight must not be assigned inside the body
+	if !postOK {
+		return "", fmt.Errorf("%s: loop post statement `%s` does not increment `%s` by one", site, exprString(fset, loop.Post), ivar.Name)
+	}
+	// the loop variable and the two heights must not be modified inside the loop body
 	bad := ""
 	ast.Inspect(loop.Body, func(n ast.Node) bool {
+		check := func(e ast.Expr) {
+			if id, ok := e.(*ast.Ident); ok && (id.Name == ivar.Name || heightVar[id.Name] != "") {
+				bad = id.Name
+			}
+		}
 		switch s := n.(type) {
 		case *ast.AssignStmt:
-			for _, l := range s.Lhs {
-				if id, ok := l.(*ast.Ident); ok && (id.Name == ivar.Name || id.Name == "stateHeight" || id.Name == "blockHeight") {
-					bad = id.Name
+			if s.Tok != token.DEFINE {
+				for _, l := range s.Lhs {
+					check(l)
 				}
 			}
 		case *ast.IncDecStmt:
-			if id, ok := s.X.(*ast.Ident); ok && (id.Name == ivar.Name || id.Name == "stateHeight" || id.Name == "blockHeight") {
-				bad = id.Name
+			check(s.X)
+		case *ast.UnaryExpr:
+			if s.Op == token.AND {
+				check(s.X)
 			}
 		}
 		return true
@@ -200,78 +245,112 @@ func genRecover(repo string) (string, error) {
 	if bad != "" {
 		return "", fmt.Errorf("%s: `%s` is modified inside the loop body", site, bad)
 	}
-	// which block an iteration executes
-	var args []ast.Expr
-	ast.Inspect(loop.Body, func(n ast.Node) bool {
-		if ce, ok := n.(*ast.CallExpr); ok && exprString(fset, ce.Fun) == "this.blockStore.GetBlockHash" && len(ce.Args) == 1 {
-			args = append(args, ce.Args[0])
+
+	// one iteration, by order of effects, wherever the calls live
+	ev := p.Trace(fn, loop.Body, inline)
+	roles := ledgersrc.Roles(ev)
+	idx := map[string]int{}
+	for _, r := range []string{"blockStore.GetBlockHash", "blockStore.GetBlock", "eventStore.NewBatch", "stateStore.NewBatch",
+		"executeBlock", "saveBlockToStateStore", "saveBlockToEventStore"} {
+		if c := countOf(roles, r); c != 1 {
+			return "", fmt.Errorf("%s: expected exactly one call of %s in one iteration of the replay loop (helpers included), found %d; trace: %v", site, r, c, roles)
 		}
-		return true
-	})
-	if len(args) != 1 {
-		return "", fmt.Errorf("%s: expected exactly one call this.blockStore.GetBlockHash(<expr>) in the loop body, found %d", site, len(args))
+		idx[r] = indexOf(roles, r)
 	}
-	arg, err := affine(fset, args[0], ivar.Name)
+	before := func(a, b string) error {
+		if idx[a] > idx[b] {
+			return fmt.Errorf("%s: %s must precede %s in the replay loop; trace: %v", site, a, b, roles)
+		}
+		return nil
+	}
+	for _, pr := range [][2]string{{"blockStore.GetBlockHash", "blockStore.GetBlock"}, {"blockStore.GetBlock", "executeBlock"},
+		{"executeBlock", "saveBlockToStateStore"}, {"executeBlock", "saveBlockToEventStore"},
+		{"stateStore.NewBatch", "saveBlockToStateStore"}, {"eventStore.NewBatch", "saveBlockToStateStore"}, {"eventStore.NewBatch", "saveBlockToEventStore"}} {
+		if err := before(pr[0], pr[1]); err != nil {
+			return "", err
+		}
+	}
+	recLetters, err := ledgersrc.CommitLetters(ev)
 	if err != nil {
-		return "", fmt.Errorf("%s: argument of GetBlockHash: %v", site, err)
+		return "", fmt.Errorf("%s: %v", site, err)
 	}
-	// an iteration: fetch, execute, save to state store (this is where the hash file is appended), save to event store,
-	// then the two commits
-	calls := callsIn(fset, loop.Body)
-	seq := []string{"this.blockStore.GetBlockHash", "this.blockStore.GetBlock", "this.executeBlock", "this.saveBlockToStateStore", "this.saveBlockToEventStore"}
-	last := -1
-	for _, s := range seq {
-		i := indexOf(calls, s)
-		if i < 0 || i < last {
-			return "", fmt.Errorf("%s: loop body does not call %v in this order (missing or misplaced: %s)", site, seq, s)
-		}
-		last = i
-	}
-	stores := []string{"this.blockStore.CommitTo", "this.eventStore.CommitTo", "this.stateStore.CommitTo"}
 	var recCommits []int
-	for _, c := range calls {
-		if i := indexOf(stores, c); i >= 0 {
-			recCommits = append(recCommits, i)
+	for i, r := range roles {
+		if strings.HasSuffix(r, ".CommitTo") && (i < idx["saveBlockToStateStore"] || i < idx["saveBlockToEventStore"]) {
+			return "", fmt.Errorf("%s: %s is called before the batches are filled; trace: %v", site, r, roles)
 		}
 	}
-	for _, c := range recCommits {
-		if indexOf(calls, stores[c]) < last {
-			return "", fmt.Errorf("%s: %s is called before the batches are filled", site, stores[c])
-		}
+	for _, c := range recLetters {
+		recCommits = append(recCommits, recoverStoreNo[string(c)])
+	}
+	// which block an iteration executes
+	gbh := ev[idx["blockStore.GetBlockHash"]]
+	if len(gbh.Call.Args) != 1 {
+		return "", fmt.Errorf("%s: GetBlockHash call with %d arguments", site, len(gbh.Call.Args))
+	}
+	argExpr := ledgersrc.SubstIdents(inline(gbh.In, gbh.Call.Args[0]), gbh.Subst)
+	arg, err := recoverAffine(fset, argExpr, isVar, "<loop variable>")
+	if err != nil {
+		return "", fmt.Errorf("%s: argument of blockStore.GetBlockHash (in %s): %v", site, gbh.In.Name.Name, err)
 	}
 
 	// submitBlock: the hash file is appended while the state batch is built (saveBlockToStateStore ->
 	// AddBlockMerkleTreeRoot -> CompactMerkleTree.AppendHash -> Append+Flush); then the three commits.
-	site2 := recoverFile + ":submitBlock"
-	sb := findFunc(f, "submitBlock")
+	site2 := ledgersrc.Dir + ":submitBlock"
+	sb := p.Funcs["LedgerStoreImp.submitBlock"]
 	if sb == nil {
-		return "", fmt.Errorf("%s: func not found", site2)
+		return "", fmt.Errorf("%s: method of LedgerStoreImp not found", site2)
 	}
-	sbCalls := callsIn(fset, sb.Body)
-	order, err := orderOf(sbCalls, stores)
+	sev := p.Trace(sb, sb.Body, inline)
+	sroles := ledgersrc.Roles(sev)
+	letters, err := ledgersrc.CommitLetters(sev)
 	if err != nil {
 		return "", fmt.Errorf("%s: %v", site2, err)
 	}
-	fill := indexOf(sbCalls, "this.saveBlockToStateStore")
-	if fill < 0 || indexOf(sbCalls, "this.saveBlockToEventStore") < 0 || indexOf(sbCalls, "this.saveBlockToBlockStore") < 0 {
-		return "", fmt.Errorf("%s: expected calls of saveBlockToBlockStore, saveBlockToStateStore and saveBlockToEventStore", site2)
+	if len(letters) != 3 {
+		return "", fmt.Errorf("%s: expected exactly one CommitTo of each of the block, event and state store, found %q; trace: %v", site2, letters, sroles)
 	}
+	var order []int
+	for _, c := range letters {
+		order = append(order, recoverStoreNo[string(c)])
+	}
+	for _, r := range []string{"saveBlockToBlockStore", "saveBlockToStateStore", "saveBlockToEventStore"} {
+		if countOf(sroles, r) != 1 {
+			return "", fmt.Errorf("%s: expected exactly one call of %s; trace: %v", site2, r, sroles)
+		}
+	}
+	fill := indexOf(sroles, "saveBlockToStateStore")
 	fileFirst := true
-	for _, s := range stores {
-		if indexOf(sbCalls, s) < fill {
+	for i, r := range sroles {
+		if strings.HasSuffix(r, ".CommitTo") && i < fill {
 			fileFirst = false
 		}
 	}
 	// saveBlockToStateStore must be the function that appends the block merkle tree (and with it the hash file)
-	ss := findFunc(f, "saveBlockToStateStore")
-	if ss == nil || indexOf(callsIn(fset, ss.Body), "this.stateStore.AddBlockMerkleTreeRoot") < 0 {
-		return "", fmt.Errorf("%s:saveBlockToStateStore: call of this.stateStore.AddBlockMerkleTreeRoot not found", recoverFile)
+	ss := p.Funcs["LedgerStoreImp.saveBlockToStateStore"]
+	appends := false
+	if ss != nil {
+		_, funcs, err := pkgFuncs(repo, ledgersrc.Dir)
+		if err != nil {
+			return "", err
+		}
+		walkDeep(funcs, funcs["saveBlockToStateStore"], 2, func(n ast.Node, in *ast.FuncDecl) bool {
+			if ce, ok := n.(*ast.CallExpr); ok {
+				if sel, ok := ce.Fun.(*ast.SelectorExpr); ok && sel.Sel.Name == "AddBlockMerkleTreeRoot" {
+					appends = true
+				}
+			}
+			return true
+		})
+	}
+	if !appends {
+		return "", fmt.Errorf("%s:saveBlockToStateStore: call of AddBlockMerkleTreeRoot not found (helpers included)", ledgersrc.Dir)
 	}
 
 	var out strings.Builder
 	out.WriteString("/-! Facts of the ledger store's commit and recovery protocol (property C01), extracted from\n`" + recoverFile + "`. Store numbering: 0 = block store, 1 = event store, 2 = state store. -/\n")
 	out.WriteString("namespace OntVerif.Gen.Recover\n\n")
-	fmt.Fprintf(&out, "/-- %s — the replay loop is `%s`; an iteration executes the block `GetBlockHash(%s)`.\nRead as `for i := stateHeight + loopLo; i < blockHeight + loopHi; i++ { execute block (i + blockArg) }`. -/\n", site, hdr(), exprString(fset, args[0]))
+	fmt.Fprintf(&out, "/-- %s — the replay loop is `%s`; an iteration executes the block `GetBlockHash(%s)` (written in `%s`).\nRead as `for i := stateHeight + loopLo; i < blockHeight + loopHi; i++ { execute block (i + blockArg) }`. -/\n", site, hdr, flat(fset, gbh.Call.Args[0]), gbh.In.Name.Name)
 	fmt.Fprintf(&out, "def loopLo : Nat := %d\n", lo)
 	fmt.Fprintf(&out, "/-- see `loopLo` -/\ndef loopHi : Nat := %d\n", hi)
 	fmt.Fprintf(&out, "/-- see `loopLo` -/\ndef blockArg : Nat := %d\n\n", arg)
